@@ -192,20 +192,31 @@ class Poison:
 
 
 class Oracle:
+    """Replays a recorded history of branch outcomes, then explores.
+
+    history entries are (value, decided): `decided` = both sides were feasible (a real fork);
+    forced outcomes are replayed without calling the solver (execution is deterministic)."""
+
     def __init__(self, prefix=()):
         self.prefix = list(prefix)
         self.taken = []
         self.alts = []
 
-    def decide(self):
+    def replay(self):
         pos = len(self.taken)
         if pos < len(self.prefix):
-            d = self.prefix[pos]
-        else:
-            d = True
-            self.alts.append(self.taken + [False])
-        self.taken.append(d)
-        return d
+            e = self.prefix[pos]
+            self.taken.append(e)
+            return e
+        return None
+
+    def forced(self, value):
+        self.taken.append((value, False))
+
+    def decide(self):
+        self.alts.append(self.taken + [(False, True)])
+        self.taken.append((True, True))
+        return True
 
 
 def _has_yield(node):
@@ -306,6 +317,7 @@ class Interp:
         self.singletons = {}
         self.unsupported_ok = False
         self.sub_pc_start = None
+        self.side_obligations = []  # (label, premises, goal): preconditions at modular call sites, asserts
 
     # ---- solver / path condition
 
@@ -338,17 +350,30 @@ class Interp:
             return True
         if z3.is_false(sc):
             return False
+        e = self.oracle.replay()
+        if e is not None:
+            val, decided = e
+            if decided:
+                self.assume(c if val else z3.Not(c))
+            return val
         t = self.check(c)
-        f = self.check(z3.Not(c))
+        f = self.check(z3.Not(c)) if t else True  # the path so far is feasible: one side must be
         if t and f:
             d = self.oracle.decide()
             self.assume(c if d else z3.Not(c))
             return d
         if t:
+            self.oracle.forced(True)
             return True
         if f:
+            self.oracle.forced(False)
             return False
         raise Infeasible()
+
+    def obligate(self, label, goal):
+        """Record `pc => goal` as an obligation of the function being verified (e.g. a callee's
+        precondition at a modular call site)."""
+        self.side_obligations.append((label, list(self.pc), goal))
 
     def fresh(self, hint, sort):
         self.fresh_n += 1
@@ -678,6 +703,8 @@ class Interp:
                 return v.fields[name]
             if name == "__class__":
                 return ClassVal(v.cls)
+            if v.abstract and name in lib.ABSTRACT_METHODS:
+                return lib.abstract_attr(self, v, name)
             owner, attr = self.find_method(v.cls, name)
             if owner is None:
                 if v.abstract:
@@ -1370,7 +1397,11 @@ def _loop_carried(body, target):
                 scan(s.body, d1)
                 for h in s.handlers:
                     scan(h.body, set(defined))
-                defined |= set()
+                # a name bound in the try body is bound afterwards on every path that continues
+                # normally through the body; handlers that fall through are covered by Python's own
+                # UnboundLocalError semantics (not modelled: such code is rejected below)
+                if all(h.body and isinstance(h.body[-1], (ast.Raise, ast.Return, ast.Continue)) for h in s.handlers):
+                    defined |= d1
             elif isinstance(s, ast.With):
                 for it in s.items:
                     carried.update((reads(it.context_expr) & assigned) - defined)
